@@ -3637,6 +3637,33 @@ impl TrustedRuntimeWalCursor {
         let causal_anchor_traversal = traverse_recovered_causal_anchors(report)?;
         let mut cursor = Self::genesis();
         for (index, transaction) in report.transactions.iter().enumerate() {
+            // The chain fields written at append time are checked against the running cursor,
+            // starting from genesis: a log whose leading transactions were removed, or into
+            // which a transaction of another log was spliced, is refused instead of being
+            // adopted as this host's history.
+            if transaction.commit.previous_committed_transaction_digest
+                != cursor.previous_committed_transaction_digest
+            {
+                return Err(WalRecoveryError::from(
+                    crate::causal_wal::WalValidationError::PreviousCommitDigestMismatch,
+                )
+                .into());
+            }
+            if cursor.has_committed_history && transaction.commit.first_lsn != cursor.next_lsn {
+                return Err(WalRecoveryError::from(
+                    crate::causal_wal::WalValidationError::LsnContinuityMismatch,
+                )
+                .into());
+            }
+            for frame in &transaction.frames {
+                if frame.header.previous_frame_digest != cursor.previous_frame_digest {
+                    return Err(WalRecoveryError::from(
+                        crate::causal_wal::WalValidationError::PreviousFrameDigestMismatch,
+                    )
+                    .into());
+                }
+                cursor.previous_frame_digest = frame.digest();
+            }
             cursor.has_committed_history = true;
             cursor.causal_history_frontier_digest =
                 causal_anchor_traversal.causal_history_frontiers[index + 1].frontier_digest;
